@@ -328,6 +328,29 @@ def run_c10(tier, seed):
                                'spec': 'sorted([MosFile…]) orders by numeric message ID', 'impl': {'ids': ids}})
         if len(oc.samples) < 3:
             oc.samples.append({'ids': h['ids'], 'n_docs': len(docs), 'permutations': len(perms)})
+    # the width grid: every pair (quick) / triple (thorough) of message IDs from a list that straddles every
+    # power of ten and of two where a textual or fixed-width comparison would go wrong, in every order
+    WIDTHS = [0, 9, 10, 99, 100, 1000, 99999999, 100000000, 123456789, 999999999, 1000000000, 4294967295, 4294967296,
+              10 ** 12, 2 ** 63, 10 ** 19 + 1]
+    groups = list(itertools.combinations(WIDTHS, 2 if tier == 'quick' else 3))
+    for gi, grp in enumerate(groups):
+        create_id = -1
+        docs = [TJ.to_text(B.ro_doc([B.story('A')], message_id=str(max(0, min(grp) - 1)) if min(grp) > 0 else '0'))]
+        ids_ = [i for i in grp if str(i) != TJ.child_text(TJ.parse(docs[0]), 'messageID')]
+        docs += [TJ.to_text(B.story_append([B.story(f'N{i}')], message_id=str(i))) for i in ids_]
+        expect_ids = sorted(ids_)
+        for pi, perm in enumerate(itertools.permutations(range(len(docs)))):
+            pdocs = [docs[i] for i in perm]
+            via = ('strings', 'files', 's3')[(gi + pi) % 3] if (gi + pi) % 4 == 0 else 'strings'
+            o = impl_collection(pdocs, True, False, via=via)
+            oc.evaluations += 1
+            oc.in_domain += 1
+            oc.count('width-grid')
+            rec = {'kind': 'collection-perm', 'docs': pdocs, 'via': via, 'keys': None, 'label': f'width grid ids={grp} perm={perm}'}
+            if o['err'] is not None or o['reader_ids'] != expect_ids:
+                oc.failing.append(dict(rec, spec='readers in ascending numeric message-ID order, for every ordering of the inputs',
+                                       impl={'err': o['err'], 'reader_ids': o['reader_ids']}, expected={'reader_ids': expect_ids}))
+            oc.nontrivial.add(stable_hash([pdocs, via]))
     oc.exhaustive = False
     oc.extra['exhaustive_part'] = 'all permutations of each document list are enumerated (n <= 5 quick / 6 thorough: 720 sampled beyond); the lists themselves are sampled histories'
     oc.rule = ('every permutation (n <= %d) of the documents of small state-aware histories with message IDs of mixed '
@@ -353,6 +376,9 @@ def c11_lists(tier):
                     roid_variants.append(('first-differs', ['RO2'] + ['RO1'] * (n - 1)))
                     roid_variants.append(('creates-differ', ['RO2' if k == 'C' else 'RO1' for k in kinds]))
                 for label, roids in roid_variants:
+                  for idmode in ('distinct', 'all-same'):
+                    if idmode == 'all-same' and n < 2:
+                        continue
                     for order in ('create-first', 'create-last', 'create-middle'):
                         ks = kinds if order == 'create-first' else list(reversed(kinds))
                         if order == 'create-middle':
@@ -361,7 +387,8 @@ def c11_lists(tier):
                             roids = ['RO2' if k == 'C' else 'RO1' for k in ks]
                         docs = []
                         for i, (k, rid) in enumerate(zip(ks, roids)):
-                            mid = str(8 + 3 * i)
+                            # all-same: every message carries one message ID (documents of one kind are then byte-identical)
+                            mid = str(8 + 3 * i) if idmode == 'distinct' else '8'
                             if k == 'C':
                                 docs.append(TJ.to_text(B.ro_doc([B.story('A')], message_id=mid, ro_id=rid)))
                             elif k == 'D':
@@ -372,8 +399,31 @@ def c11_lists(tier):
                                                         B.ro_replace([B.story(f'R{i}')], message_id=mid, ro_id=rid)][(i + no + nd) % 3]))
                         for allow in (False, True):
                             out.append({'docs': docs, 'allow': allow,
-                                        'label': f'creates={nc} deletes={nd} others={no} roids={label} {order} allow={allow}'})
+                                        'label': f'creates={nc} deletes={nd} others={no} roids={label} ids={idmode} {order} allow={allow}'})
     return out
+
+
+def kind_of_text(text):
+    """Class name read neutrally from the message element (the generator only emits these)."""
+    t = TJ.parse(text)
+    for tag, name in (('roCreate', 'RunningOrder'), ('roDelete', 'RunningOrderEnd'), ('roReadyToAir', 'ReadyToAir'),
+                      ('roStoryAppend', 'StoryAppend'), ('roReplace', 'RunningOrderReplace')):
+        if TJ.find(t, tag) is not None:
+            return name
+    return '?'
+
+
+def c11_good(docs, accept, obs):
+    good = (obs['err'] is None) if accept else (obs['err'] == 'InvalidMosCollection')
+    if accept and obs['err'] is None:
+        # the collection's running order is that roCreate; the remaining readers are exactly the other messages
+        others = sorted((int(TJ.child_text(TJ.parse(t), 'messageID')), kind_of_text(t)) for t in docs
+                        if kind_of_text(t) != 'RunningOrder')
+        creates = [int(TJ.child_text(TJ.parse(t), 'messageID')) for t in docs if kind_of_text(t) == 'RunningOrder']
+        good = (good and obs['ro_type'] == 'RunningOrder' and [obs['ro_msg_id']] == creates
+                and sorted(zip(obs['reader_ids'], obs['reader_types'])) == others
+                and obs['reader_ids'] == sorted(obs['reader_ids']))
+    return good
 
 
 def validate_obs(docs, allow):
@@ -384,7 +434,8 @@ def validate_obs(docs, allow):
         with warnings.catch_warnings():
             warnings.simplefilter('ignore')
             mc = MosCollection.from_strings(list(docs), allow_incomplete=allow)
-        return {'err': None, 'ro_msg_id': mc.ro.message_id, 'reader_ids': [mr.message_id for mr in mc.mos_readers]}
+        return {'err': None, 'ro_msg_id': mc.ro.message_id, 'reader_ids': [mr.message_id for mr in mc.mos_readers],
+                'reader_types': [mr.mos_type.__name__ for mr in mc.mos_readers], 'ro_type': type(mc.ro).__name__}
     except Exception as e:  # noqa: BLE001
         return {'err': impl.err_name(e), 'ro_msg_id': None, 'reader_ids': []}
 
@@ -424,12 +475,9 @@ def run_c11(tier, seed):
         oc.count('spec-accepts' if accept else 'spec-rejects')
         for flag, obs in (('default', d), ('-O', o)):
             model_obs = {'err': m['err'], 'ro_msg_id': m['ro_msg_id'], 'reader_ids': m['reader_ids']}
-            if obs != model_obs:
+            if {k: obs.get(k) for k in model_obs} != model_obs:
                 oc.disagreements.append(dict(rec, what=f'validation outcome under {flag}', impl=obs, model=model_obs))
-            good = (obs['err'] is None) if accept else (obs['err'] == 'InvalidMosCollection')
-            if accept and obs['err'] is None:
-                # the collection's running order is the roCreate; the remaining readers exclude it
-                good = good and obs['ro_msg_id'] not in obs['reader_ids']
+            good = c11_good(c['docs'], accept, obs)
             if not good:
                 oc.failing.append(dict(rec, spec='accepted exactly when it describes one running order; rejection is '
                                        'InvalidMosCollection; not weakened by -O', interpreter=flag, impl=obs,
@@ -480,9 +528,7 @@ def replay(pid, fl):
         accept = m['spec_accepts']
         bad = False
         for obs in (d, o):
-            bad = bad or not ((obs['err'] is None) if accept else (obs['err'] == 'InvalidMosCollection'))
-            bad = bad or (obs['err'] is None and obs['ro_msg_id'] in obs['reader_ids'])
-            bad = bad or obs != {'err': m['err'], 'ro_msg_id': m['ro_msg_id'], 'reader_ids': m['reader_ids']}
+            bad = bad or not c11_good(fl['docs'], accept, obs)
         print(json.dumps({'default': d, 'optimized': o, 'spec_accepts': accept}, indent=1))
     else:
         print('unknown replay kind', kind)
